@@ -325,28 +325,28 @@ PROPS['C18'] = dict(
     title='No out-of-bounds, uninitialised, mismatched-free or undefined behaviour',
     jobs=[
         # transforms: configuration enumeration + histories ending in destruction, ASan+UBSan+LSan per forked case
-        J('h_ntt', 'san2', 1, 1, only='c03.enum,c04.enum,c05.enum,c05.basis', wq=16, wt=16, args=['--enumerate', '--level', '0', '--enum-stride', '3'], tiers=['quick'], tag='enum', class_prefix='ntt:'),
-        J('h_ntt', 'san2', 1, 1, only='c03.enum,c04.enum,c05.enum,c03.basis,c04.basis,c05.basis', wq=16, wt=16, args=['--enumerate', '--level', '1'], tiers=['thorough'], tag='enum', env=_LEAK, class_prefix='ntt:'),
-        J('h_ntt', 'san2', 6000, 300_000, only='c19.history,c03.random,c04.random,c04.roundtrip,c05.random', wq=16, wt=16, args=['--level', '0'], tag='rnd', env=_LEAK, class_prefix='ntt:'),
+        J('h_ntt', 'san2', 1, 1, only='c03.enum,c04.enum,c05.enum,c05.basis', wq=16, wt=16, args=['--enumerate', '--level', '0', '--enum-stride', '3'], tiers=['quick'], tag='enum', crash_only=True, class_prefix='ntt:'),
+        J('h_ntt', 'san2', 1, 1, only='c03.enum,c04.enum,c05.enum,c03.basis,c04.basis,c05.basis', wq=16, wt=16, args=['--enumerate', '--level', '1'], tiers=['thorough'], tag='enum', env=_LEAK, crash_only=True, class_prefix='ntt:'),
+        J('h_ntt', 'san2', 6000, 300_000, only='c19.history,c03.random,c04.random,c04.roundtrip,c05.random', wq=16, wt=16, args=['--level', '0'], tag='rnd', env=_LEAK, crash_only=True, class_prefix='ntt:'),
         # Poseidon: sponge lengths, tree shapes (AVX512 build: two rows per call), permutation
-        J('h_poseidon', 'san5', 1, 1, only='c07.lengths,c08.enum,c06.kat', wq=16, wt=16, args=['--enumerate', '--level', '0'], tiers=['quick'], tag='enum', class_prefix='poseidon:'),
-        J('h_poseidon', 'san5', 1, 1, only='c07.lengths,c08.enum,c06.kat', wq=16, wt=16, args=['--enumerate', '--level', '1'], tiers=['thorough'], tag='enum', class_prefix='poseidon:'),
-        J('h_poseidon', 'san5', 12_000, 1_000_000, only='c06.perm,c07.random,c08.random', wq=8, wt=16, tag='rnd', class_prefix='poseidon:'),
-        J('h_poseidon', 'san2', 1, 1, only='c07.lengths,c08.enum', wq=8, wt=16, args=['--enumerate', '--level', '0'], tag='enum', class_prefix='poseidon-avx2:'),
+        J('h_poseidon', 'san5', 1, 1, only='c07.lengths,c08.enum,c06.kat', wq=16, wt=16, args=['--enumerate', '--level', '0'], tiers=['quick'], tag='enum', crash_only=True, class_prefix='poseidon:'),
+        J('h_poseidon', 'san5', 1, 1, only='c07.lengths,c08.enum,c06.kat', wq=16, wt=16, args=['--enumerate', '--level', '1'], tiers=['thorough'], tag='enum', crash_only=True, class_prefix='poseidon:'),
+        J('h_poseidon', 'san5', 12_000, 1_000_000, only='c06.perm,c07.random,c08.random', wq=8, wt=16, tag='rnd', crash_only=True, class_prefix='poseidon:'),
+        J('h_poseidon', 'san2', 1, 1, only='c07.lengths,c08.enum', wq=8, wt=16, args=['--enumerate', '--level', '0'], tag='enum', crash_only=True, class_prefix='poseidon-avx2:'),
         # kernels with exact-size coefficient arrays; cubic extension (batchInverse VLAs); all 164 + 156 overloads in exact-size arenas
-        J('h_lanes', 'san5', 60_000, 10_000_000, only='c13,c14', wq=6, wt=16, class_prefix='matrix:'),
-        J('h_cubic', 'san2', 150_000, 15_000_000, wq=4, wt=16, class_prefix='cubic:'),
-        J('h_cubic_batch', 'san5', 160_000, 30_000_000, wq=8, wt=16, class_prefix='cubic-batch:'),
-        J('h_wrappers', 'san5', 120_000, 30_000_000, only='c17.copy,c17.add,c17.sub,c17.mul', wq=8, wt=16, tag='rows', class_prefix='wrappers:'),
-        J('h_wrappers', 'san2', 4000, 200_000, only='c17.par', wq=8, wt=16, tag='par', class_prefix='wrappers:'),
-        J('h_scalar2', 'san2', 200_000, 20_000_000, only='c15', wq=4, wt=8, class_prefix='conversions:'),
+        J('h_lanes', 'san5', 60_000, 10_000_000, only='c13,c14', wq=6, wt=16, crash_only=True, class_prefix='matrix:'),
+        J('h_cubic', 'san2', 150_000, 15_000_000, wq=4, wt=16, crash_only=True, class_prefix='cubic:'),
+        J('h_cubic_batch', 'san5', 160_000, 30_000_000, wq=8, wt=16, crash_only=True, class_prefix='cubic-batch:'),
+        J('h_wrappers', 'san5', 120_000, 30_000_000, only='c17.copy,c17.add,c17.sub,c17.mul', wq=8, wt=16, tag='rows', crash_only=True, class_prefix='wrappers:'),
+        J('h_wrappers', 'san2', 4000, 200_000, only='c17.par', wq=8, wt=16, tag='par', crash_only=True, class_prefix='wrappers:'),
+        J('h_scalar2', 'san2', 200_000, 20_000_000, only='c15', wq=4, wt=8, crash_only=True, class_prefix='conversions:'),
         # uninitialised stack reads: pattern-initialised automatic variables must not change any result (oracle = the functional oracles)
-        J('h_ntt', 'init2', 4000, 200_000, only='c19.history,c05.random', wq=8, wt=16, args=['--level', '0'], tiers=['thorough'], tag='rnd', class_prefix='autoinit:ntt:'),
-        J('h_poseidon', 'init2', 20_000, 1_000_000, only='c06.perm,c07.random,c08.random', wq=8, wt=16, tiers=['thorough'], tag='rnd', class_prefix='autoinit:poseidon:'),
+        J('h_ntt', 'init2', 4000, 200_000, only='c19.history,c05.random', wq=8, wt=16, args=['--level', '0'], tiers=['thorough'], tag='rnd', crash_only=True, class_prefix='autoinit:ntt:'),
+        J('h_poseidon', 'init2', 20_000, 1_000_000, only='c06.perm,c07.random,c08.random', wq=8, wt=16, tiers=['thorough'], tag='rnd', crash_only=True, class_prefix='autoinit:poseidon:'),
         # valgrind memcheck on the AVX2 build (valgrind 3.19 cannot execute AVX512): definedness of every value that reaches a branch or a syscall
-        J('h_poseidon', 'fast2', 300, 300, only='c07.random,c06.perm', wq=4, wt=4, tiers=['thorough'], tag='vg', wrap=['valgrind', '-q', '--error-exitcode=99', '--track-origins=no'], class_prefix='valgrind:poseidon:'),
-        J('h_cubic_batch', 'fast2', 2000, 2000, wq=4, wt=4, tiers=['thorough'], tag='vg', wrap=['valgrind', '-q', '--error-exitcode=99'], class_prefix='valgrind:cubic-batch:'),
-        J('h_wrappers', 'fast2', 2000, 2000, only='c17.copy,c17.add,c17.sub,c17.mul', wq=4, wt=4, tiers=['thorough'], tag='vg', wrap=['valgrind', '-q', '--error-exitcode=99'], class_prefix='valgrind:wrappers:'),
+        J('h_poseidon', 'fast2', 300, 300, only='c07.random,c06.perm', wq=4, wt=4, tiers=['thorough'], tag='vg', wrap=['valgrind', '-q', '--error-exitcode=99', '--track-origins=no'], crash_only=True, class_prefix='valgrind:poseidon:'),
+        J('h_cubic_batch', 'fast2', 2000, 2000, wq=4, wt=4, tiers=['thorough'], tag='vg', wrap=['valgrind', '-q', '--error-exitcode=99'], crash_only=True, class_prefix='valgrind:cubic-batch:'),
+        J('h_wrappers', 'fast2', 2000, 2000, only='c17.copy,c17.add,c17.sub,c17.mul', wq=4, wt=4, tiers=['thorough'], tag='vg', wrap=['valgrind', '-q', '--error-exitcode=99'], crash_only=True, class_prefix='valgrind:wrappers:'),
     ],
     rule='The generators of C03-C09, C13, C14, C16, C17, C19 re-run on AddressSanitizer + UndefinedBehaviorSanitizer builds (-O1, AVX2 and -D__AVX512__ configurations) with EXACT-SIZE heap allocations for every declared extent '
          '(inputs, outputs, scratch buffers, trees, strided arenas end at the last designated cell), so one element past any extent is a report; UBSan covers integer/shift/alignment/VLA-bound UB; alloc-dealloc-mismatch covers the destructors; '
